@@ -248,6 +248,7 @@ Proof.
   set (r0 := mk (f_owner r) (f_tr r) (f_enq r) (f_mq r) (f_ov r) (f_role r) (f_em r) (f_d r) pbn
                 (4096 - W + U s + (W - 1) * pbn) (f_ib r) (f_hi r)).
   assert (W0 : wfr r0) by (subst r0 pbn; destruct (nx =? 2); wf_mk).
+  pose proof W0 as W0'. unfold wfr in W0'.
   assert (E0 : u64 (enc r - (if nx =? 2 then f_dispatch_queue_adjust_owned 0 (ow * 2199023255552) 1 W 1 else ow * 2199023255552)) = enc r0).
   { subst r0 pbn. destruct (Z.eqb_spec nx 2) as [E2|E2].
     - rewrite sub_adjusted by (assumption || lia). f_equal. unfold mk. f_equal; lia.
@@ -255,7 +256,6 @@ Proof.
       rewrite add_wq by (assumption || lia). unfold set_wq. f_equal. unfold mk. f_equal; lia. }
   rewrite (drain_nb_fields r r0) in Hs; try assumption; try lia;
     try (subst r0; cbn [mk f_ib f_hi f_pb f_wq]; lia); try (unfold valid_tid in Vt; lia).
-  2:{ subst r0 pbn. cbn [mk f_pb f_wq]. destruct (nx =? 2); lia. }
   cbv zeta in Hs. rewrite E0 in Hs.
   set (r2 := mk 0 0 (f_enq r0) (f_mq r0) 0 (f_role r0) (f_em r0) 0 (f_pb r0) (f_wq r0) 0 0) in *.
   assert (W2 : wfr r2) by (subst r2 r0 pbn; destruct (nx =? 2); wf_mk).
@@ -270,17 +270,12 @@ Proof.
     split; [exact HW|]. split.
     - exists r3. pose proof (g_pbh _ _ _ G) as Gph. destruct G.
       constructor; unfold U in *; gcbn; try assumption; try lia; try reflexivity; try congruence.
-      + intros X. discriminate X.
-      + rewrite Bm. reflexivity.
-      + rewrite Bm. discriminate.
-      + rewrite R7, R6. lia.
       + split; [lia|]. auto.
-      + intros _ X. apply RU. lia.
       + split; [|exact Hrq]. destruct Tk as [(-> & _ & E1 & E2)|(-> & _ & E1)].
         * rewrite E1. rewrite E2 in Henq. destruct (tokh s); lia.
         * rewrite E1. exact Henq.
       + apply g_wt_setpc; [exact Gwt | rewrite Hpc, Pw; cbn [waitpc]; auto].
-      + intros X. apply Hn2. subst pbn. destruct (Z.eqb_spec nx 2); [assumption|lia].
+      + intros X. unfold head_bar. gcbn. apply Hn2. subst pbn. destruct (Z.eqb_spec nx 2); [assumption|lia].
     - intros u. destruct (Z.eq_dec u t) as [->|Ne].
       + constructor; gcbn; rewrite ?upd_same, ?Ph, ?Po, ?Pw.
         * exact T1.
@@ -296,25 +291,25 @@ Proof.
           rewrite E2 in Henq. assert (TN : tokh s = None) by (destruct (tokh s); [lia|reflexivity]).
           rewrite TN. split; [intros X; congruence|discriminate]. }
   assert (R0f : f_ib r0 = 0 /\ f_hi r0 = 0 /\ f_pb r0 = pbn /\ f_wq r0 = 4096 - W + U s + (W - 1) * pbn /\ f_enq r0 = f_enq r /\
-                f_role r0 = f_role r /\ f_em r0 = f_em r) by (subst r0; cbn [mk f_ib f_hi f_pb f_wq f_enq f_role f_em]; auto).
+                f_role r0 = f_role r /\ f_em r0 = f_em r) by (subst r0; cbn [mk f_ib f_hi f_pb f_wq f_enq f_role f_em]; repeat split; auto).
   destruct R0f as (F1 & F2 & F3 & F4 & F5 & F6 & F7).
   assert (Pbn : pbn = 0 \/ pbn = 1) by (subst pbn; destruct (nx =? 2); auto).
   destruct (Z.eqb_spec nx 0) as [N0|N0].
   - (* nothing more to hand out *)
     change (nz 0) with false in Hs. cbv iota in Hs.
     destruct (Z.eqb_spec (f_d r) 1) as [Hd|Hd].
-    { injection Hs as <-. pc_only_tac HI Hpc. auto. }
+    { injection Hs as <-. pc_only_tac HI Hpc. split; [exact Bm|]. split; [exact Dw|]. split; [exact O|].
+      rewrite (pb_of W s r G). exact P0. }
     assert (Pn0 : pbn = 0) by (subst pbn; destruct (Z.eqb_spec nx 2); [lia|reflexivity]).
     unfold changed, IN_BARRIER, ENQUEUED in Hs. rewrite changed_ib_f, changed_enq_f in Hs by assumption.
-    subst r2. fcbn_in Hs. rewrite F1, Z.eqb_refl in Hs. cbn [Z.eqb negb] in Hs. injection Hs as <-.
+    subst r2. fcbn_in Hs. rewrite F1, !Z.eqb_refl in Hs. cbn [Z.eqb negb] in Hs. injection Hs as <-.
     specialize (Rel (mk 0 0 (f_enq r0) (f_mq r0) 0 (f_role r0) (f_em r0) 0 (f_pb r0) (f_wq r0) 0 0) (tokh s) (after k)).
     replace (set_tokh (set_dw (set_lockh (set_st s (enc (mk 0 0 (f_enq r0) (f_mq r0) 0 (f_role r0) (f_em r0) 0 (f_pb r0) (f_wq r0) 0 0))) None) 0) (tokh s))
       with (set_dw (set_lockh (set_st s (enc (mk 0 0 (f_enq r0) (f_mq r0) 0 (f_role r0) (f_em r0) 0 (f_pb r0) (f_wq r0) 0 0))) None) 0) in Rel by reflexivity.
     apply Rel; fcbn; try assumption; try reflexivity; try lia; try (destruct k; reflexivity).
     right. split; [reflexivity|]. split; [destruct k; reflexivity | exact F5].
   - (* there is a next item: DIRTY stays behind, and the lock may be taken again on its behalf *)
-    assert (Nz : nz (if nx =? 0 then 0 else 1) = true) by (destruct (Z.eqb_spec nx 0); [contradiction|reflexivity]).
-    rewrite Nz in Hs.
+    cbv iota in Hs. change (nz 1) with true in Hs. cbv iota in Hs.
     unfold tl_rec, tl_take in Hs. subst r2. fcbn_in Hs. rewrite F3, F4 in Hs.
     assert (Take : (if pbn =? 1 then 4096 - W + U s + (W - 1) * pbn + 1 =? 4096 else 4096 - W + U s + (W - 1) * pbn + W =? 4096)
                    = (U s =? 0)).
@@ -330,12 +325,10 @@ Proof.
       subst rl. fcbn_in Hs. rewrite F1 in Hs. cbn [Z.eqb negb] in Hs. injection Hs as <-.
       split; [exact HW|]. split.
       * eexists. destruct G. constructor; try reflexivity; try exact Wl; unfold U in *; gcbn; fcbn; try assumption; try lia; try congruence.
+        -- rewrite Ho. reflexivity.
         -- intros _. split; [rewrite Ho; discriminate|]. split; [reflexivity|]. split; [lia|reflexivity].
         -- split; [lia|]. intros X. rewrite Ho in X. discriminate X.
-        -- intros X. rewrite Ho in X. discriminate X.
-        -- rewrite F5. exact (conj Henq Hrq).
         -- apply g_wt_setpc; [exact Gwt | rewrite Hpc; cbn [waitpc]; auto].
-        -- intros X. discriminate X.
       * intros u. destruct (Z.eq_dec u t) as [->|Ne].
         -- eapply (owner_keeps W s _ t (BC_tail k) (T t)); rewrite ?Hpc; gcbn; rewrite ?upd_same; try reflexivity.
         -- apply (other_thread_owner W s _ t u Ne T Ho); gcbn; try reflexivity.
@@ -355,8 +348,10 @@ Proof.
            right. split; [reflexivity|]. split; [destruct k; reflexivity | lia].
         -- apply Rel; unfold set_enq1; fcbn; try assumption; try reflexivity; try lia; try (destruct k; reflexivity).
            left. repeat split; auto; lia.
-      * unfold changed, IN_BARRIER, ENQUEUED in Hs. rewrite changed_ib_f, changed_enq_f in Hs by (assumption || (destruct Pbn as [->| ->]; wf_mk)).
-        fcbn_in Hs. rewrite F1, Z.eqb_refl in Hs. cbn [Z.eqb negb] in Hs. injection Hs as <-.
+      * assert (W4 : wfr (mk 0 0 (f_enq r0) (f_mq r0) 0 (f_role r0) (f_em r0) 1 pbn (4096 - W + U s + (W - 1) * pbn) 0 0))
+          by (destruct Pbn as [->| ->]; wf_mk).
+        unfold changed, IN_BARRIER, ENQUEUED in Hs. rewrite changed_ib_f, changed_enq_f in Hs by assumption.
+        fcbn_in Hs. rewrite F1, !Z.eqb_refl in Hs. cbn [Z.eqb negb] in Hs. injection Hs as <-.
         match goal with |- Inv W (set_pc ?s1 t ?p) =>
           replace s1 with (set_tokh s1 (tokh s)) by reflexivity end.
         apply Rel; fcbn; try assumption; try reflexivity; try lia; try (destruct k; reflexivity);
